@@ -697,4 +697,26 @@ def shared_curve(repo: Repo) -> RuleRun:
 shared_curve.rule_id = "C02.SHARED-CURVE"
 
 
-RULES = [set_order, progress_flag, fixpoint_schedules, copy_carries_count, no_spurious_conflict, undefined_raises, grade_before_write, det_sources, neighbour_symmetry, axis_length, grade_idempotent, coincidence_symmetry, clear_complete, collapsed_edge, defined_means_all, shared_curve]
+
+def grade_replay(repo: Repo) -> RuleRun:
+    """'... the outcome does not depend on ... how often the mesh is graded': a second grading pass starts where the first one started - every block is reset before the FIRST block is graded. Same rule as C12.GRADE-REPLAY."""
+    from ..report import rebrand
+    from . import c12
+
+    return rebrand(c12.grade_replay(repo), PROP, "C02.GRADE-REPLAY")
+
+
+grade_replay.rule_id = "C02.GRADE-REPLAY"
+
+
+def no_memo(repo: Repo) -> RuleRun:
+    """'every block ends up with a count in every direction' - the count of a size-based chop is derived from the CURRENT mean length of the direction: nothing in the wire managers / gradings memoises a view of state that moving a vertex changes. Same rule body as C03.NO-MEMO."""
+    from ..memo import memo_rule
+
+    return memo_rule(repo, PROP, "C02.NO-MEMO", ("grading.", "items.wires.", "items.block"), floor=0)
+
+
+no_memo.rule_id = "C02.NO-MEMO"
+
+
+RULES = [set_order, progress_flag, fixpoint_schedules, copy_carries_count, no_spurious_conflict, undefined_raises, grade_before_write, det_sources, neighbour_symmetry, axis_length, grade_idempotent, coincidence_symmetry, clear_complete, collapsed_edge, defined_means_all, shared_curve, grade_replay, no_memo]
